@@ -1056,6 +1056,18 @@ class Executor:
             return py.fn(self, st, args, kwargs, node)
         if py is None:
             raise Unsupported("call of a non-constant callable", node)
+        selfobj = getattr(py, "__self__", None)
+        if isinstance(selfobj, dict) and getattr(py, "__name__", "") == "get" and all(isinstance(k, (str, int)) for k in selfobj):
+            # .get on a module-level constant dict: exact ite chain over its items (read from the real module)
+            key = args[0]
+            default = args[1] if len(args) > 1 else Val(NONE, NoneType)
+            acc = default.t
+            tys = [default.ty]
+            for k_, v_ in reversed(list(selfobj.items())):
+                cv = self.w.const(v_)
+                acc = z3.If(self.py_eq(st, key, self.w.const(k_)), cv.t, acc)
+                tys.append(cv.ty)
+            return Val(simp(acc), T.join_types(tys))
         name = canonical_name(py) if not isinstance(py, str) else py
         # python handler (builtins / externs modelled in python)
         h = self._find_handler(py, name)
@@ -1070,6 +1082,10 @@ class Executor:
 
     def _find_handler(self, py, name):
         h = self.w.handlers.get(name) if name else None
+        if h is None:
+            so = getattr(py, "__self__", None)
+            if so is not None and not isinstance(so, type) and hasattr(py, "__name__"):
+                h = self.w.handlers.get(f"{type(so).__module__}.{type(so).__qualname__}.{py.__name__}")
         if h is None:
             try:
                 h = self.w.handlers.get(py)
@@ -1134,6 +1150,12 @@ class Executor:
 
     def call_closure(self, st, cl: Closure, args, kwargs, node):
         fnode = cl.node
+        # a nested def with its own sidecar contract is used modularly (contract, not body)
+        if isinstance(fnode, ast.FunctionDef) and not getattr(self, "_inline_only", False):
+            cn = f"{self.module.__name__}.{self.qualname.split('.<locals>.')[0]}.<locals>.{fnode.name}"
+            c = self.w.contracts.get(cn)
+            if c is not None and c is not self.contract:
+                return self.apply_contract(c, st, args, kwargs, node)
         a = fnode.args
         names = [x.arg for x in a.posonlyargs + a.args]
         if a.vararg or a.kwarg:
